@@ -100,3 +100,12 @@ pub struct BitsL {
     pub b: ssz::BitList<typenum::U16>,
     pub c: u8,
 }
+
+/// a union whose first payload type re-appears after a different one (selectors follow declaration order, not payload types)
+#[derive(Encode, Decode)]
+#[ssz(enum_behaviour = "union")]
+pub enum U3 {
+    A(u8),
+    B(u16),
+    C(u8),
+}
